@@ -73,7 +73,7 @@ def family_stacks(seed):
 
 
 def run(ctx):
-    stacks = zoo.select(ctx.seed + 5000, ctx.tier, limit=2000 if ctx.thorough else 130) + family_stacks(ctx.seed)
+    stacks = zoo.select(ctx.seed + 5000, ctx.tier, limit=2600 if ctx.thorough else 130) + family_stacks(ctx.seed)
     sh = zoorun.make_shards(ctx, stacks, "zapi::drive_c13<{Z}>();", "api", flavour="asan-dbg", extra_include="zoo_api.hpp", with_partners=True)
 
     def attribute(shard, build):
